@@ -98,39 +98,65 @@ Theorem branch_incremental_refines_spec_partial :
     b_rs s == dot (b_bl s) (map F (b_state s)).
 Proof. exact running_sum_is_tree_sum. Qed.
 
-(* REFUTED (finding C08-F2): the faithful port of the branch-mode AFS code differs from the
-   documented definition on a valid tree sequence. *)
-Theorem afs_branch_refuted :
+(* ---- defects C08-F1..F4 were repaired in /repo (af93ddc, 093fdd5, a2ba426, e85e341); the
+   models used by the correspondence follow the repaired code.  Positive statements about
+   the current models first, the pre-fix ("pinned") variants as a historical record. ---- *)
+
+(* C08-F2.  The documented branch-mode AFS is additive over window refinements, every entry,
+   all tree sequences.  [full, for the definition; the repaired C sweep (Afs.afs_branch_port)
+   is tied to the definition by correspondence on every run, and by Examples in AfsProofs] *)
+Theorem afs_branch_definition_additive :
+  forall time S all segs c (gs : list (list Q)), chained gs -> Forall incr gs ->
+    Forall2 Qeq (fine_sums (afs_branch_spec time S all segs c) gs)
+                (windowed (afs_branch_spec time S all segs c) (coarse gs)).
+Proof. exact afs_branch_spec_refinement. Qed.
+
+Theorem afs_branch_pinned_refuted :
   exists time S all E I O L ws segs,
     segs = w_segs /\ E = w_edges /\
-    check_afs_port (afs_branch_port time S all E I O L ws) false ws
+    check_afs_port (afs_branch_port_pinned time S all E I O L ws) false ws
                    (afs_branch_spec_table time S all segs ws) = false.
-Proof. exact afs_branch_port_violates_definition. Qed.
+Proof. exact afs_branch_pinned_violates_definition. Qed.
 
-(* REFUTED (finding C08-F1): genetic_relatedness(indexes=(i,j), proportion=True) raises for
-   a documented argument combination. *)
-Theorem relatedness_proportion_shape_refuted :
+(* C08-F1.  The repaired shaping of genetic_relatedness(proportion=True) never raises and
+   gives the documented shape for every windows / mode / indexes combination.  [full] *)
+Theorem relatedness_proportion_shape_total :
+  forall windows node_mode num_nodes indexes,
+    proportion_shape windows node_mode num_nodes indexes =
+    Some (documented_shape windows node_mode num_nodes indexes).
+Proof. exact proportion_shape_total. Qed.
+
+Theorem relatedness_proportion_shape_pinned_refuted :
   exists windows node_mode num_nodes,
-    proportion_shape windows node_mode num_nodes (Some (true, 1%nat)) = None /\
+    proportion_shape_pinned windows node_mode num_nodes (Some (true, 1%nat)) = None /\
     documented_shape windows node_mode num_nodes (Some (true, 1%nat)) = [2%nat].
-Proof. exact proportion_shape_raises. Qed.
+Proof. exact proportion_shape_pinned_raises. Qed.
 
-(* REFUTED (finding C08-F3): the span by which pair_coalescence_counts(span_normalise=True)
-   divides is not the non-missing span of the window when a window ends inside an interval
-   without edges. *)
-Theorem pair_coalescence_span_refuted :
+(* C08-F3.  BOUNDED: for every tiling of [0,4) by trees with integer end points (with or
+   without edges) and every window list on the half-integer grid the repaired span
+   bookkeeping of pair_coalescence_counts equals the non-missing span.  [bounded, 54 x 128] *)
+Theorem pair_coalescence_span_bounded :
+  forall trees ws, In trees tilings_scope -> In ws windows_scope ->
+    qlist_eqb (pcc_code_spans trees ws) (pcc_spec_spans trees ws) = true.
+Proof. exact pcc_spans_bounded. Qed.
+
+Theorem pair_coalescence_span_pinned_refuted :
   exists trees ws,
     trees = w_ptrees /\
-    qlist_eqb (pcc_code_spans trees ws) (pcc_spec_spans trees ws) = false.
-Proof. exact pcc_span_violates_definition. Qed.
+    qlist_eqb (pcc_code_spans_pinned trees ws) (pcc_spec_spans trees ws) = false.
+Proof. exact pcc_span_pinned_violates_definition. Qed.
 
-(* REFUTED (finding C08-F4): Tree.rf_distance is not the number of sample bipartitions in
-   one tree but not the other when a tree has a sample-less subtree. *)
-Theorem rf_distance_refuted :
+(* C08-F4.  The repaired Tree.rf_distance is the symmetric difference of the sample
+   bipartitions, for all pairs of trees.  [full, for the parent-array model] *)
+Theorem rf_distance_is_definition :
+  forall p1 p2 samples, rf_code p1 p2 samples = rf_spec p1 p2 samples.
+Proof. exact rf_code_is_spec. Qed.
+
+Theorem rf_distance_pinned_refuted :
   exists p1 p2 samples,
     p1 = [1; 2; -1]%Z /\ p2 = [2; 2; -1]%Z /\ samples = [0; 2]%Z /\
-    rf_code p1 p2 samples = 1%Z /\ rf_spec p1 p2 samples = 0%Z.
-Proof. exact rf_counts_empty_clade. Qed.
+    rf_code_pinned p1 p2 samples = 1%Z /\ rf_spec p1 p2 samples = 0%Z.
+Proof. exact rf_pinned_counts_empty_clade. Qed.
 
 (* REFUTED (finding C08-F5): genetic_relatedness_vector accepts span_normalise and ignores
    it. *)
